@@ -468,6 +468,15 @@ def gen_unit(name, canary=False, outname=None):
                     prel, n = re.subn(r"(?m)^(pub open spec fn %s\()" % re.escape(fn), r"#[verifier::opaque] \1", prel)
                     if n != 1:
                         raise SpecError(f"unit {name}: cannot make `{fn}` of unit {u['unit']} opaque")
+            if fl.startswith("drop_requires="):
+                # the importing unit proves its obligations WITHOUT this precondition of the imported contracts (they must then hold for
+                # every argument): whole `requires P(..),` lines and continuation lines `P(..),` that start with the given predicate go
+                pred = re.escape(fl[len("drop_requires="):])
+                t, n1 = re.subn(r"(?m)^[ \t]*requires[ \t]+%s\([^\n]*\),[ \t]*(//[^\n]*)?\n" % pred, "", t)
+                t, n2 = re.subn(r"(?m)^[ \t]+%s\([^\n]*\),[ \t]*(//[^\n]*)?\n" % pred, "", t)
+                if n1 + n2 == 0:
+                    raise SpecError(f"unit {name}: no precondition `{fl[len('drop_requires='):]}` found in unit {u['unit']}")
+                meta_all["log"].append(f"imported unit {u['unit']}: {n1 + n2} precondition lines `{fl[len('drop_requires='):]}(..)` dropped for this unit")
         # lemmas of an imported unit are verified in their own unit: here they are only used
         prel = re.sub(r"(?m)^(pub (?:broadcast )?proof fn )", r"#[verifier::external_body] \1", prel)
         prel = prel.replace("#[verifier::external_body]\n#[verifier::external_body] pub proof fn", "#[verifier::external_body]\npub proof fn")
